@@ -336,6 +336,7 @@ pub fn run_c04(a: &Args) {
         if sc.steps.iter().any(|s| matches!(s, Step::Eof)) && o.result == "running" { why.push("handler still running after the client's end of stream".into()); }
         cases.push(Case { request: o.request1.clone(), observed: o.observed.clone(), oracle: if why.is_empty() { None } else { Some(why.join("; ")) }, class: format!("{class}:{}:alloc<2^{}", o.result.split(':').next_back().unwrap_or(""), usize::BITS - o.max_alloc.leading_zeros()) });
     }
+    cases.extend(crate::lst::c04_listener_cases());
     write_cases(&a.out, &cases).expect("write cases");
     println!("c04: {} scenarios", cases.len());
 }
